@@ -142,26 +142,30 @@ def two_level_specs(tier: str):
 
 
 def trivia_specs(tier: str):
-    """Stack operations next to implicit rules that push and drop themselves (COMMENT = _{ PUSH("#") ~ "!" ~ DROP }):
-    a COMMENT attempt that fails after its PUSH must leave the stack as it was, in every mode."""
+    """Stack operations next to implicit rules that touch the stack themselves: COMMENT = _{ PUSH("#") ~ "!" ~ DROP } (a COMMENT attempt that
+    fails after its PUSH must leave the stack as it was) and WHITESPACE = _{ POP } (what matches as whitespace depends on the stack; trivia
+    that is given back must give the entry back too), in every mode."""
     k = 2
     env = gast.Env(())
     inners = gast.exprs_upto(k, T_ST, U_ST, ("seq", "alt"), env)
-    triv = families.TRIVIA["cm_stack"]
-    ins = families.inputs("a#! ", 4 if tier == "thorough" else 3)
-    starts = []
-    for pre in ((), (("pushlit", "a"),)):
-        for w in ("none", "alt", "opt"):
-            for inner in inners:
-                for failer in (False, True):
-                    body_inner = ("seq", (inner, NEVER)) if failer else inner
-                    mid = wrap(w, ("grp", body_inner) if failer or inner[0] in ("seq", "alt") else body_inner) if w != "none" else body_inner
-                    # S("a") ~ ... : a sequence boundary before and after the stack operation, so that implicit rules run there
-                    starts.append((f"r{len(starts)}", "", ("seq", tuple(pre) + (S("a"), mid, S("a")) + PROBE)))
     out = []
-    for i in range(0, len(starts), BATCH):
-        grp = starts[i:i + BATCH]
-        out.append(engine.Spec(triv + tuple(grp), [g[0] for g in grp], ins, "zero", "stack-with-trivia(cm_stack)"))
+    for cfg, sigma in (("cm_stack", "a#! "), ("ws_pop", "ab")):
+        triv = families.TRIVIA[cfg]
+        ins = families.inputs(sigma, (4 if tier == "thorough" else 3) + (1 if cfg == "ws_pop" else 0))
+        starts = []
+        for pre in ((), (("pushlit", "a"),)):
+            for w in ("none", "alt", "opt", "star"):
+                for inner in inners:
+                    for failer in (False, True):
+                        body_inner = ("seq", (inner, NEVER)) if failer else inner
+                        if w == "star" and env.nullable(body_inner):
+                            continue
+                        mid = wrap(w, ("grp", body_inner) if failer or inner[0] in ("seq", "alt") else body_inner) if w != "none" else body_inner
+                        # S("a") ~ ... : a sequence boundary before and after the stack operation, so that implicit rules run there
+                        starts.append((f"r{len(starts)}", "", ("seq", tuple(pre) + (S("a"), mid, ("star", S("a"))) + PROBE)))
+        for i in range(0, len(starts), BATCH):
+            grp = starts[i:i + BATCH]
+            out.append(engine.Spec(triv + tuple(grp), [g[0] for g in grp], ins, "zero", f"stack-with-trivia({cfg})"))
     return out
 
 
@@ -196,7 +200,7 @@ def run(tier: str) -> int:
              "Plus the stack-repetition family: after 2-3 pushes of possibly empty entries (PUSH(\"a\"?), PUSH_LITERAL(\"\"), PUSH(\"a\"|\"b\")), every repetition ? * + {2} {1,} {,2} {1,2} of an operand that can succeed without consuming input "
              "(DROP, (DROP ~ \"a\"?), (\"a\"? ~ DROP), (&DROP ~ POP), (&DROP ~ PEEK ~ DROP), (\"b\" ~ DROP | DROP)), followed by the probe, alone and inside an abandoned alternative. "
              + families.RECURSIVE_RULE_TEXT[2:] + " (stack operations as op, POP_ALL ~ EOI as the probe). " + "Plus stack-two-levels: PUSH(\"a\") ~ PUSH(\"b\") ~ W1[op1 ~ W2[op2 ~ F2] ~ F1] ~ probe for every pair of six stack operations, every pair of wrappers and every combination of the two levels failing or committing, inputs over {a,b} up to length 5; "
-             "plus literals of regular-expression metacharacters and non-BMP characters through PUSH_LITERAL and PUSH. Plus stack-with-trivia: \"a\" ~ W[INNER ~ FAILER] ~ \"a\" ~ PEEK_ALL ~ EOI with INNER <= 2 nodes, under WHITESPACE = _{ \" \" } and COMMENT = _{ PUSH(\"#\") ~ \"!\" ~ DROP } (an implicit rule that pushes before it can fail). "
+             "plus literals of regular-expression metacharacters and non-BMP characters through PUSH_LITERAL and PUSH. Plus stack-with-trivia: \"a\" ~ W[INNER ~ FAILER] ~ \"a\" ~ PEEK_ALL ~ EOI with INNER <= 2 nodes, under WHITESPACE = _{ \" \" } and COMMENT = _{ PUSH(\"#\") ~ \"!\" ~ DROP } (an implicit rule that pushes before it can fail), and under WHITESPACE = _{ POP } (an implicit rule that reads and pops the stack). "
              "UNSPEC cases (PEEK/POP on an empty stack, out-of-range slice) are judged only by 'no exception other than PestParsingError'. Non-trivial: the reference run backtracked or returned pairs. "
              "The history-level half of the quantifier is C09's BFS over ParserState.checkpoint/ok/restore x push/drop.",
         assumptions=["implicit trivia only in the stack-with-trivia family (one configuration)"],
